@@ -32,7 +32,7 @@ CharPool == <<97, 98, 32, 40, 41, 46, 120, 233, 111, 119, 123, 125, 9>>
 KeyPool == << <<120>>, <<233,32,97>>, <<97,98,8,99>>, <<97,32,98,98,23,99>>, <<120,121,21,122>>, <<97,10,98>>, <<10>>, <<>>,
               <<20,120>>, <<97,10,4,98>>, <<22,9,120>>, <<97,22,0,98>>, <<119,49,32,119,50>>, <<32,32,97,10,98,10,99>>, <<28450>>, <<40,41>>, <<97,10,32,98,10,99>>,
               <<32,120,4,121>>, <<9,88,4>>, <<32,4,4,122>> >>       \* a typed leading blank, then ^D (a no-op unless the line so far is empty)
-RegPool == <<0, 0, 0, 97, 98, 65>>
+RegPool == <<0, 0, 0, 97, 98, 65, 34>>
 Counts == <<0, 0, 0, 0, 2, 3, 9, 1>>
 
 MotionKinds == <<"h", "l", "j", "k", "0", "^", "$", "|", "w", "b", "e", "W", "B", "E", "f", "F", "t", "T", ";", ",", "G", "+", "-", "_",
